@@ -23,7 +23,7 @@ ASSUMPTIONS = ['CachedMethods compatibility shim',
                'edits are applied in Kekule form only (the library documents that editing Thiele forms invalidates state)',
                'the rebuilt molecule through the public API is the sequential model']
 CONFIG = {
-    'quick': {'shards': 16, 'budget_s': 150, 'depth': 3, 'n_random': 600, 'random_len': 40,
+    'quick': {'shards': 16, 'budget_s': 400, 'depth': 3, 'n_random': 600, 'random_len': 40,
               'exhaustive_subspaces': ['all mutator sequences of length <= 3 over the op alphabet on 6 seed molecules, '
                                        'one interposed reader per step rotating through all readers'],
               'floors': {'evaluations': 20000, 'distinct_nontrivial': 3000, 'steps.compared': 20000,
